@@ -73,6 +73,13 @@ def _run_rule_chain(chain, arch, names=("r.a", "r.b")):
     k = 0
     for i, c in enumerate(chain):
         try:
+            if c == "assert_applies":
+                # an evaluation in the middle of the chain: whatever it does, the rule object must judge its FINAL configuration later
+                try:
+                    r.assert_applies(arch)
+                except BaseException:
+                    pass
+                continue
             if c in ("are_named", "are_sub_modules_of"):
                 r = getattr(r, c)(names[k % 2])
                 k += 1
@@ -106,7 +113,8 @@ def _c13_chunk(chains):
     for chain in chains:
         spec = RuleSpec()
         for c in chain:
-            spec.call(c)
+            if c != "assert_applies":
+                spec.call(c)
         cls = spec.classify()
         kind, detail, at = _run_rule_chain(chain, arch)
         out["cases"] += 1
@@ -117,7 +125,7 @@ def _c13_chunk(chains):
         elif cls != "complete" and detail not in CONFIG_ERRORS:
             if len(out["violations"]) < 3:
                 out["violations"].append(dict(case="rule-chain", detail=f"{cls} chain raised {detail}, not a configuration/lookup error", input=dict(kind="rule", chain=chain)))
-        elif cls == "complete" and kind == "error" and "should_only" not in chain[2:3] and len(set(chain) & {"should", "should_only", "should_not"}) == 1 and detail in ("ImproperlyConfigured", "RuleInconsistency"):
+        elif [c for c in chain if c != "assert_applies"] in COMPLETE_CHAINS and kind == "error" and detail in ("ImproperlyConfigured", "RuleInconsistency"):
             # a complete, single-verb chain over existing modules must be evaluated
             if len(out["violations"]) < 3:
                 out["violations"].append(dict(case="rule-chain", detail=f"complete chain was rejected with {detail}", input=dict(kind="rule", chain=chain)))
@@ -148,6 +156,14 @@ def bounded_rule_chains(tier, seed):
     for c in COMPLETE_CHAINS:
         chains.append(c)
         chains += _chain_variants(c)
+        # the same rule object evaluated, then extended, then evaluated again
+        for extra in RULE_VOCAB:
+            chains.append(c + ["assert_applies", extra])
+            chains.append(c[:3] + ["assert_applies"] + c[3:] + ["assert_applies", extra])
+    for _ in range(1500 if tier == "quick" else 20000):
+        ch = [rng.choice(RULE_VOCAB) for _ in range(rng.randint(4, 7))]
+        ch.insert(rng.randint(1, len(ch)), "assert_applies")
+        chains.append(ch)
     size = max(1, len(chains) // 32)
     _merge(b, pmap(_c13_chunk, [chains[i:i + size] for i in range(0, len(chains), size)]))
     b.samples.append(dict(chain=COMPLETE_CHAINS[0][:-1], classified="incomplete"))
@@ -194,7 +210,8 @@ def rerun_c13(inp):
         arch = build_arch(TREES["deep"], [("r.a.x", "r.b.x"), ("r.b", "r.c")])
         spec = RuleSpec()
         for c in inp["chain"]:
-            spec.call(c)
+            if c != "assert_applies":
+                spec.call(c)
         kind, detail, at = _run_rule_chain(inp["chain"], arch)
         cls = spec.classify()
         ok = not (cls != "complete" and (kind in ("pass", "fail") or detail not in CONFIG_ERRORS))
